@@ -227,6 +227,69 @@ fn concurrent(report: &mut Report, seed: u64, n: u64) -> Option<(String, String)
     }
     report.count("concurrent_runs", 1);
     report.nontrivial.insert(fnv_mix(n, sum as u64));
+    // remove-then-miss under concurrency: every thread owns its keys (nobody else inserts them), all keys are
+    // crafted to share two buckets, so that removals by the neighbours shift the entries inside the bucket while
+    // a thread is between finding its entry and taking it out. After its own remove(k) a thread's get(k) must miss.
+    cache.verif_set_watermarks(64 << 20, 64 << 20);
+    let buckets = [(seed.wrapping_add(n) % 16384) as u32, (seed.wrapping_mul(31).wrapping_add(n * 7) % 16384) as u32];
+    let mut pool: Vec<Vec<u8>> = Vec::new();
+    let mut i = 0u64;
+    while pool.len() < 8 * 24 && i < 4_000_000 {
+        let k = format!("rm{n}-{i}").into_bytes();
+        if buckets.contains(&(feoxdb::utils::hash::murmur3_32(&k, 0) % 16384)) {
+            pool.push(k);
+        }
+        i += 1;
+    }
+    let pool = Arc::new(pool);
+    let hits_after_remove = Arc::new(std::sync::atomic::AtomicU64::new(0));
+    let first = Arc::new(parking_lot::Mutex::new(None::<String>));
+    let mut hs = Vec::new();
+    for t in 0..8usize {
+        let (c, pool, bad, first) = (cache.clone(), pool.clone(), hits_after_remove.clone(), first.clone());
+        hs.push(std::thread::spawn(move || {
+            let mine: Vec<&Vec<u8>> = pool.iter().skip(t).step_by(8).collect();
+            if mine.is_empty() {
+                return 0u64;
+            }
+            let mut rng = Rng::derive(seed, n, 100 + t as u64);
+            let mut rounds = 0u64;
+            for r in 0..3000u64 {
+                let k = mine[rng.usize_below(mine.len())];
+                c.insert(k.clone(), Bytes::from(vec![t as u8; 16 + (r % 50) as usize]));
+                if rng.chance(1, 3) {
+                    let k2 = mine[rng.usize_below(mine.len())];
+                    c.insert(k2.clone(), Bytes::from(vec![t as u8; 8]));
+                }
+                c.remove(k);
+                if c.get(k).is_some() {
+                    bad.fetch_add(1, std::sync::atomic::Ordering::Relaxed);
+                    let mut f = first.lock();
+                    if f.is_none() {
+                        *f = Some(format!("thread {t}, round {r}: remove({}) by the only thread that inserts this key was followed by a hit", hex(k)));
+                    }
+                }
+                rounds += 1;
+            }
+            rounds
+        }));
+    }
+    let mut rounds = 0;
+    for h in hs {
+        rounds += h.join().unwrap_or(0);
+    }
+    report.evaluations += rounds;
+    report.count("concurrent_remove_then_get_rounds", rounds);
+    report.count("keys_sharing_two_buckets", pool.len() as u64);
+    let bad = hits_after_remove.load(std::sync::atomic::Ordering::Relaxed);
+    if bad > 0 {
+        return Some(("cache:hit-after-remove".into(), format!("{bad} of {rounds} concurrent remove-then-get rounds hit (keys of 8 threads share two buckets): {}", first.lock().clone().unwrap_or_default())));
+    }
+    let entries = cache.verif_entries();
+    let sum: usize = entries.iter().map(|e| e.1).sum();
+    if cache.stats().memory_usage != sum {
+        return Some(("cache:accounting-drift".into(), format!("after the concurrent remove-then-get rounds: reported memory {} != sum of entry sizes {sum}", cache.stats().memory_usage)));
+    }
     None
 }
 
